@@ -1,9 +1,9 @@
 (* C03: no premature verdicts.  The statement is the "definitive" clause of the one-step
    property ExtOK (first theorem), discharged for the same parsers as C02 (every buffer, suffix,
    offset and object state), for ParseHeaders, and for the message parser (C03_message, with the
-   property's two exemptions spelled out).  PARTIAL only in that ParseAllURIParams and
-   ParseAllURIHdrs are carried by the correspondence run and the extension oracle. *)
-From Sipsp Require Import Harness Resume Ext ExtLeaf ExtCSeq ExtTok ExtNameAddr ExtNested ExtLists ExtFLine ExtHdrLine ExtHeaders ExtMsg.
+   property's two exemptions spelled out).  ParseAllURIParams / ParseAllURIHdrs: on every list whose
+   unused slots are clean (ExtURI.v; what Init / Reset make and the parsers keep). *)
+From Sipsp Require Import Harness Resume Ext ExtLeaf ExtCSeq ExtTok ExtNameAddr ExtNested ExtLists ExtFLine ExtHdrLine ExtHeaders ExtMsg CapURI ExtURI.
 Theorem C03_definitive_results_are_final :
   forall (S : Type) (P : list byte -> N -> S -> res S) (obs : S -> list Z) (Inv : N -> S -> Prop),
   ExtOK P obs Inv ->
@@ -62,6 +62,14 @@ Proof. exact (fun b x k s0 o e s => no_premature_verdict _ _ _ hdrline_ExtOK b x
 Theorem C03_header_block : forall b x k s0 o e s, k <= nnat (length b) ->
   parse_headers b k s0 = Done o e s -> e <> EMore -> req (fun x => obs_hdrlst (hs_l x) ++ obs_opt_phvals (hs_pv x)) (parse_headers (b ++ x) k s0) (Done o e s).
 Proof. exact (fun b x k s0 o e s => no_premature_verdict _ _ _ headers_ExtOK b x k s0 o e s I). Qed.
+
+Theorem C03_all_uri_params : forall flags, testbit flags bPOptInputEnd = false -> forall b x k s0 o e s, ul_wf s0 -> k <= nnat (length b) ->
+  parse_all_uri_params flags b k s0 = Done o e s -> e <> EMore -> req obs_uparams (parse_all_uri_params flags (b ++ x) k s0) (Done o e s).
+Proof. exact (fun flags Hie b x k s0 o e s => no_premature_verdict _ _ _ (uparams_ExtOK flags (ul_flags_ie flags Hie)) b x k s0 o e s). Qed.
+
+Theorem C03_all_uri_hdrs : forall flags, testbit flags bPOptInputEnd = false -> forall b x k s0 o e s, uh_wf s0 -> k <= nnat (length b) ->
+  parse_all_uri_hdrs flags b k s0 = Done o e s -> e <> EMore -> req obs_uhdrs (parse_all_uri_hdrs flags (b ++ x) k s0) (Done o e s).
+Proof. exact (fun flags Hie b x k s0 o e s => no_premature_verdict _ _ _ (uhdrs_ExtOK flags (uh_flags_ie flags Hie)) b x k s0 o e s). Qed.
 
 (* the message parser: unless the no-more-data flag is set, a definitive verdict is kept on every
    extension, with the same offset and the same object - except that (1) a message without
